@@ -204,7 +204,14 @@ def coherent(f):
                        % (np.size(f.VGLVLS), nl))
     if 'TFLAG' in f.variables and f.variables['TFLAG'].shape[0] > 0 and \
             f.variables['TFLAG'].shape[1] > 0:
-        t0 = np.asarray(f.variables['TFLAG'][...])[0, 0]
+        tfa = np.asarray(f.variables['TFLAG'][...])
+        d_, t_ = tfa[..., 0].astype('i8'), tfa[..., 1].astype('i8')
+        if ((d_ % 1000 < 1) | (d_ % 1000 > 366) | (d_ < 1000) |
+                (t_ < 0) | (t_ // 10000 > 23) | (t_ % 10000 // 100 > 59) |
+                (t_ % 100 > 59)).any() and not (d_ == -635).all():
+            bad.append('TFLAG holds values that are not YYYYJJJ/HHMMSS '
+                       'stamps, e.g. %s' % tfa.reshape(-1, 2)[0].tolist())
+        t0 = tfa[0, 0]
         if int(t0[0]) != int(f.SDATE) or int(t0[1]) != int(f.STIME):
             bad.append('SDATE/STIME=(%s,%s) but TFLAG[0,0]=(%s,%s)'
                        % (f.SDATE, f.STIME, t0[0], t0[1]))
